@@ -29,7 +29,8 @@ RULE = ("TLC explores the abstract period limiter (PeriodLimit.tla: per-key coun
 
 FAM = "limit"
 PKG = "core/limit"
-DRV = ["zz_verif_limit_test.go", "zz_verif_tokenlimit_test.go", "zz_verif_periodlimit_test.go"]
+DRV = ["zz_verif_limit_test.go", "zz_verif_tokenlimit_test.go", "zz_verif_periodlimit_test.go",
+       "zz_verif_c03_wb_test.go", "zz_verif_c03_nowb_test.go"]
 
 
 def check(run):
@@ -95,6 +96,20 @@ def drive(run, *a, **kw):
                 raise
             vlib.log("  NOTE driver run discarded (a store command stalled > 2 s on a busy machine); running it again")
             run.notes.append("a driver run was discarded (stalled store command) and repeated")
+
+
+def skipped(run, tr, label):
+    """A driver that could not run because its white-box accessors do not compile against this tree wrote one
+    'info' event: nothing to validate; say so in the evidence."""
+    import json as _json
+    lines = [l for l in open(tr) if l.strip()]
+    if lines and all(_json.loads(l).get("e") == "info" for l in lines):
+        why = _json.loads(lines[0]).get("skipped", "")
+        vlib.log("  NOTE %s: driver skipped itself (%s); not validated" % (label, why))
+        run.notes.append("%s skipped: %s" % (label, why))
+        run.extra.setdefault("skipped_drivers", []).append({"label": label, "why": why})
+        return True
+    return False
 
 
 def design_level(run, thorough):
@@ -172,6 +187,8 @@ def conformance(run, thorough):
             run.distinct.add((label, str(b)))
         run.evaluations += len(beh)
         tr = drive(run, PKG, DRV, test, inp=beh, env=env, timeout=900)
+        if skipped(run, tr, label):
+            continue
         run.validate(FAM, tmod, tmod + ".cfg", tr, label=label, heap="3g", dfs=True)
     # ---- code -> spec
     if thorough:
@@ -192,6 +209,8 @@ def conformance(run, thorough):
     env = {"VERIF_TOKEN_SKEW_EVERY": (12 if not thorough else 40) if kf_open else 1}
     for test, tmod, label, cpu in drivers:
         tr = drive(run, PKG, DRV, test, cpu=cpu, timeout=900, env=env)
+        if skipped(run, tr, label):
+            continue
         n0 = run.traces
         run.validate(FAM, tmod, tmod + ".cfg", tr, label=label, heap="3g", dfs=True)
         run.evaluations += run.traces - n0
